@@ -62,6 +62,31 @@ def gen_request(rng, schema, ds, opts):
     return "\n".join(lines) + "\n\n"
 
 
+def head_of(text):
+    lines = []
+    for l in text.split("\n"):
+        if l.strip() == "" and lines:
+            break
+        lines.append(l)
+    return "\n".join(lines) + "\n"
+
+
+def canon_answer(chunk):
+    """order-free form of one response: rows as a multiset, the failed map as a dictionary"""
+    body = chunk
+    if len(chunk) >= 16 and chunk[3:4] == " " and chunk[15:16] == "\n" and chunk[:3].isdigit():
+        body = chunk[16:]
+    try:
+        data = json.loads(body)
+    except ValueError:
+        return None
+    if isinstance(data, dict):
+        return ("w", sorted(json.dumps(r, sort_keys=True) for r in data.get("data") or []), json.dumps(data.get("failed"), sort_keys=True), data.get("total_count"), len(chunk))
+    if isinstance(data, list):
+        return ("l", sorted(json.dumps(r, sort_keys=True) for r in data), len(chunk))
+    return None
+
+
 def check_raw(v, case, res, model, ctx):
     """framing + JSON validity + shape of one response (bytes of Response.send)"""
     text = case["text"]
@@ -70,6 +95,8 @@ def check_raw(v, case, res, model, ctx):
         return None
     raw = res.get("raw", "")
     code = res.get("code")
+    # a request ends at its first empty line (a generated value may contain one): only the headers before it count
+    text = head_of(text)
     fixed16 = "responseheader: fixed16" in text.lower()
     if res.get("err") and not raw:
         # the request did not parse: plain error text (checked in sessions)
@@ -153,6 +180,11 @@ def run(ctx, spec, out):
             qs = []
             for _ in range(10):
                 text = gen_request(rng, ctx["schema"], ds, {"depth": [0, 1], "nfilters": [0, 1], "sort": 0.3, "limit": 0.3, "offset": 0.2, "backends": 0.2, "colheaders": 0.0})
+                for _ in range(20):
+                    # a value taken from the data may contain an empty line ("\r\n"): that would be two requests, not one
+                    if head_of(text).rstrip("\n") == text.rstrip("\n"):
+                        break
+                    text = gen_request(rng, ctx["schema"], ds, {"depth": [0, 1], "nfilters": [0, 1], "sort": 0.3, "limit": 0.3, "offset": 0.2, "backends": 0.2, "colheaders": 0.0})
                 qs.append({"text": text, "optimize": True, "has_header_row": queryfam.has_header_row(text)})
                 made += 1
             batches.append((ds, qs))
@@ -243,15 +275,28 @@ def run_sessions(ctx, v, rng, ds, qs, impl_single, cases):
         if got.get("crash") or got.get("timeout"):
             v.violations.append(("crash" if got.get("crash") else "property", case, "session crashed or did not end: " + str(got)[:300]))
             continue
-        expected = ""
+        expected, chunks = "", []
         for act in plans[si + 1]["actions"]:
             if "answer" in act:
                 s = single.get((si, act["answer"])) or {}
-                expected += s.get("raw", "")
+                chunks.append(s.get("raw", ""))
             else:
                 s = single.get((si, act["parse_error"])) or {}
-                expected += (s.get("err") or "") + "\n"
+                chunks.append((s.get("err") or "") + "\n")
+            expected += chunks[-1]
         out_text = got.get("out", "")
+        if out_text != expected and len(out_text) == len(expected):
+            # where lmd's own order is not determined (Stats groups and the failed map come out of Go maps) two runs of the
+            # same request may differ in order only: compare response by response, order-free
+            pos, same = 0, True
+            for c in chunks:
+                g = out_text[pos:pos + len(c)]
+                pos += len(c)
+                if g != c and (canon_answer(g) is None or canon_answer(g) != canon_answer(c)):
+                    same = False
+                    break
+            if same:
+                out_text = expected
         done += 1
         nreq = len(reqs)
         if nreq >= 2:
